@@ -1,9 +1,64 @@
-(* C42 — property theorems only. *)
+(* C42 — property theorems only.  Each is closed by `exact <lemma>` and followed by Print Assumptions. *)
 From Coq Require Import List NArith Bool Arith.
-From Verif.C42 Require Import Model Spec Proofs.
+From Verif.C42 Require Import Model Spec Proofs ProofsApply.
 Import ListNotations.
 Open Scope N_scope.
 
-Theorem c42_empty_consistent : consistent [] [].
-Proof. exact consistent_empty. Qed.
-Print Assumptions c42_empty_consistent.
+(* INVARIANT AFTER EACH SINGLE MAP WRITE.  For every history of applies (any services/endpoints, any Go map
+   iteration order `v`, any set of failing writes, any schedule `tr` of the single writes inside the phases) and
+   restarts, from any Syncer state and any consistent dataplane (e.g. empty maps): every dataplane state passed
+   through - one per single write - and the final one is consistent: every frontend's backend count refers only
+   to backend entries that exist. *)
+Theorem c42_every_write_consistent : forall cfg ops sy d states sy' d',
+  consistent (fst d) (snd d) -> run_history cfg sy d ops = Some (states, sy', d') ->
+  Forall (fun s => consistent (fst s) (snd s)) states /\ consistent (fst d') (snd d').
+Proof. exact history_consistent. Qed.
+Print Assumptions c42_every_write_consistent.
+
+(* the same for one Apply, with what the states are: the schedule executed write by write *)
+Theorem c42_apply_every_write_consistent : forall cfg sy d st v fF fB tr sy' d' err,
+  consistent (fst d) (snd d) -> exec_apply cfg sy d st v fF fB tr = Some (sy', d', err) ->
+  Forall (fun s => consistent (fst s) (snd s)) (states_after d tr) /\ d' = do_writes d tr
+  /\ consistent (fst d') (snd d').
+Proof. exact exec_apply_consistent. Qed.
+Print Assumptions c42_apply_every_write_consistent.
+
+(* what the syncer wants to write is itself consistent, whatever ids it chose *)
+Theorem c42_desired_consistent : forall npips us, consistent (desired_fe npips us) (desired_be us).
+Proof. exact desired_consistent. Qed.
+Print Assumptions c42_desired_consistent.
+
+(* A COMPLETED SYNC LEAVES EXACTLY THE DESIRED MAPS (stale frontends and backends removed, nothing missing),
+   for every schedule: both maps agree key by key with the maps computed from the services. *)
+Theorem c42_completed_sync_is_desired : forall cfg sy d st v fF fB tr sy' d',
+  consistent (fst d) (snd d) -> exec_apply cfg sy d st v fF fB tr = Some (sy', d', false) ->
+  exists next us,
+    visit_all (sy_prev (if sy_synced sy then sy else startup (c_reset cfg) (c_npips cfg) sy (fst d) st))
+              (sy_next (if sy_synced sy then sy else startup (c_reset cfg) (c_npips cfg) sy (fst d) st)) st v = Some (next, us) /\
+    (forall k, lookup fkey_eqb (fst d') k = lookup fkey_eqb (desired_fe (c_npips cfg) us) k) /\
+    (forall k, lookup pair_eqb (snd d') k = lookup pair_eqb (desired_be us) k).
+Proof. exact completed_apply_is_desired. Qed.
+Print Assumptions c42_completed_sync_is_desired.
+
+(* Non-vacuity: a concrete history (service with node port, external and LB IP; endpoints change; an apply whose
+   writes fail from the 4th on; restart; shrink) runs in the model and passes through 13 states. *)
+Definition ex_s0 := Svc 0 174063617 80 6 30001 [587202561] [603979777] true false 0 false.
+Definition ex_e1 := Ep 167837953 8000 true false 3232235522.
+Definition ex_e2 := Ep 167837697 8000 true true 0.
+Example c42_example_history :
+  exists states sy' d',
+    run_history (Config [3232235521; 4294967295] false) new_syncer ([], [])
+      [ MApply [(ex_s0, [ex_e1; ex_e2])] [(0, [])] [] []
+          [WSetB (0,1) (167837953,8000); WSetB (0,0) (167837697,8000);
+           WSetF (FK 4294967295 30001 6) (FV 0 2 1 0 1); WSetF (FK 174063617 80 6) (FV 0 2 1 0 0);
+           WSetF (FK 603979777 80 6) (FV 0 2 1 0 1); WSetF (FK 587202561 80 6) (FV 0 2 1 0 0);
+           WSetF (FK 3232235521 30001 6) (FV 0 2 1 0 1)];
+        MApply [(ex_s0, [ex_e2])] [(0, [])] [FK 587202561 80 6] []
+          [WSetF (FK 174063617 80 6) (FV 0 1 1 0 0); WSetF (FK 3232235521 30001 6) (FV 0 1 1 0 1);
+           WSetF (FK 603979777 80 6) (FV 0 1 1 0 1); WSetF (FK 4294967295 30001 6) (FV 0 1 1 0 1)];
+        MRestart;
+        MApply [(ex_s0, [ex_e2])] [(0, [])] [] []
+          [WSetF (FK 587202561 80 6) (FV 0 1 1 0 0); WDelB (0,1)] ]
+    = Some (states, sy', d') /\ length states = 13%nat
+    /\ final_exactb [3232235521; 4294967295] [(ex_s0, [ex_e2])] (fst d') (snd d') = true.
+Proof. vm_compute. eexists _, _, _. split; [reflexivity|split; reflexivity]. Qed.
